@@ -1,7 +1,1442 @@
-//! C15 harness (stub until built)
+//! C15 — renaming is harmless and emitted names are hygienic.
+//!
+//! Request: `C15.names \t <h|m> \t <program descriptor>` (see `parse_items` for the grammar).
+//! Observation: the assignment of the real `NameMap::build` on the type-checked program (qualified names of
+//! namespaces, structs, enums, globals, functions, locals by ordinal) — compared with the Lean model.
+//! Oracle (independent of the model, in the property's words), evaluated on the assignment *and* on the text
+//! the real `compile()` emits for the program P and for its skeleton P0 (same program, every entity renamed to
+//! a unique fresh identifier):
+//!   * P and P0 give the same token sequence up to identifiers, and the identifier printed for an entity is
+//!     the same at every occurrence (output identical up to renaming);
+//!   * no declared name is in the independent keyword/built-in list of the target (Spec/Names.lean);
+//!   * no two distinct entities declared in one scope of the output share a name;
+//!   * every printed (qualified) identifier resolves, by C++ lookup over the declarations of the output, to the
+//!     entity the source referred to;
+//!   * a source name that is unique in its scope and not reserved is printed verbatim.
 use crate::util::*;
+use rssl::ir;
+use rssl::ir::name_generator::{NameMap, NameSymbol};
+use std::collections::{BTreeMap, BTreeSet, HashMap, HashSet};
 
-pub fn run(_args: &Args, _out: &mut Out) {
-    eprintln!("C15: harness not built yet");
-    std::process::exit(2);
+// ------------------------------------------------------------------------------------------ tables
+
+fn repo_root() -> String {
+    std::env::var("VERIF_REPO").unwrap_or_else(|_| "/repo".to_string())
+}
+
+/// `RESERVED_NAMES` of `<crate>/src/names.rs`, read from the source tree (the module is private); the result is
+/// cross-checked against the compiled-in table through the names `compile()` prints (oracle `tie`).
+pub fn reserved_from_source(krate: &str) -> Vec<String> {
+    let text = std::fs::read_to_string(format!("{}/{}/src/names.rs", repo_root(), krate)).unwrap_or_default();
+    let mut consts = HashMap::new();
+    for line in text.lines() {
+        let l = line.trim();
+        if let Some(rest) = l.strip_prefix("pub const ") {
+            if let Some((name, val)) = rest.split_once(": &str = ") {
+                let v = val.trim().trim_end_matches(';').trim_matches('"');
+                consts.insert(name.trim().to_string(), v.to_string());
+            }
+        }
+    }
+    let key = "RESERVED_NAMES: &[&str] = &[";
+    let mut out = Vec::new();
+    if let Some(s) = text.find(key) {
+        let body = &text[s + key.len()..];
+        let end = body.find("];").unwrap_or(body.len());
+        for line in body[..end].lines() {
+            let l = line.split("//").next().unwrap_or("").trim().trim_end_matches(',');
+            if l.is_empty() {
+                continue;
+            }
+            if l.starts_with('"') {
+                out.push(l.trim_matches('"').to_string());
+            } else if let Some(v) = consts.get(l) {
+                out.push(v.clone());
+            }
+        }
+    }
+    out
+}
+
+const SPEC_LEAN: &str = include_str!("../../lean/RsslVerif/Spec/Names.lean");
+
+/// the independent keyword list `def <name> : List String := [...]` of Spec/Names.lean
+fn spec_list(name: &str) -> Vec<String> {
+    let key = format!("def {} : List String :=", name);
+    let mut out = Vec::new();
+    if let Some(s) = SPEC_LEAN.find(&key) {
+        let body = &SPEC_LEAN[s + key.len()..];
+        let end = body.find(']').unwrap_or(body.len());
+        let mut it = body[..end].split('"');
+        it.next();
+        while let Some(x) = it.next() {
+            out.push(x.to_string());
+            it.next();
+        }
+    }
+    out
+}
+
+struct Tables {
+    real: [Vec<String>; 2],
+    spec: [HashSet<String>; 2],
+}
+
+fn tables() -> Tables {
+    Tables {
+        real: [reserved_from_source("hlsl"), reserved_from_source("msl")],
+        spec: [
+            spec_list("hlslKeywords").into_iter().collect(),
+            spec_list("mslKeywords").into_iter().collect(),
+        ],
+    }
+}
+
+// ------------------------------------------------------------------------------------------ descriptor
+
+#[derive(Clone, Debug)]
+enum Stmt {
+    Lv(String),
+    Block(Vec<Stmt>),
+    Use(String),
+}
+
+#[derive(Clone, Debug)]
+enum Item {
+    Ns(String, Vec<Item>),
+    St(String, Vec<String>),
+    En(String, Vec<String>),
+    Gl(String),
+    Fn(String, String, Vec<String>, Vec<Stmt>),
+}
+
+fn is_ident(s: &str) -> bool {
+    let mut cs = s.chars();
+    match cs.next() {
+        Some(c) if c.is_ascii_alphabetic() || c == '_' => cs.all(|c| c.is_ascii_alphanumeric() || c == '_'),
+        _ => false,
+    }
+}
+
+const STRUCTURE_WORDS: &[&str] = &["ns", "st", "en", "gl", "fn", "lv", "use", "end", "{", "}"];
+
+fn parse_stmts(t: &[&str], mut i: usize) -> Option<(Vec<Stmt>, usize)> {
+    let mut out = Vec::new();
+    loop {
+        match *t.get(i)? {
+            "}" => return Some((out, i + 1)),
+            "lv" => {
+                out.push(Stmt::Lv(t.get(i + 1)?.to_string()));
+                i += 2;
+            }
+            "use" => {
+                out.push(Stmt::Use(t.get(i + 1)?.to_string()));
+                i += 2;
+            }
+            "{" => {
+                let (b, j) = parse_stmts(t, i + 1)?;
+                out.push(Stmt::Block(b));
+                i = j;
+            }
+            _ => return None,
+        }
+    }
+}
+
+fn parse_items(t: &[&str], mut i: usize, top: bool) -> Option<(Vec<Item>, usize)> {
+    let mut out = Vec::new();
+    loop {
+        if i >= t.len() {
+            return if top { Some((out, i)) } else { None };
+        }
+        match t[i] {
+            "end" => return if top { None } else { Some((out, i + 1)) },
+            "ns" => {
+                let name = t.get(i + 1)?.to_string();
+                let (inner, j) = parse_items(t, i + 2, false)?;
+                out.push(Item::Ns(name, inner));
+                i = j;
+            }
+            k @ ("st" | "en") => {
+                let name = t.get(i + 1)?.to_string();
+                let mut j = i + 2;
+                let mut xs = Vec::new();
+                while *t.get(j)? != "end" {
+                    xs.push(t[j].to_string());
+                    j += 1;
+                }
+                out.push(if k == "st" { Item::St(name, xs) } else { Item::En(name, xs) });
+                i = j + 1;
+            }
+            "gl" => {
+                out.push(Item::Gl(t.get(i + 1)?.to_string()));
+                i += 2;
+            }
+            "fn" => {
+                let name = t.get(i + 1)?.to_string();
+                let pt = t.get(i + 2)?.to_string();
+                let np = if pt == "-" { 0 } else { pt.len() };
+                let mut params = Vec::new();
+                for k in 0..np {
+                    params.push(t.get(i + 3 + k)?.to_string());
+                }
+                if *t.get(i + 3 + np)? != "{" {
+                    return None;
+                }
+                let (body, j) = parse_stmts(t, i + 4 + np)?;
+                out.push(Item::Fn(name, pt, params, body));
+                i = j;
+            }
+            _ => return None,
+        }
+    }
+}
+
+fn parse_program(s: &str) -> Option<Vec<Item>> {
+    let t: Vec<&str> = s.split(' ').filter(|x| !x.is_empty()).collect();
+    let (items, i) = parse_items(&t, 0, true)?;
+    if i == t.len() { Some(items) } else { None }
+}
+
+fn show_stmts(ss: &[Stmt], out: &mut Vec<String>) {
+    for s in ss {
+        match s {
+            Stmt::Lv(n) => {
+                out.push("lv".into());
+                out.push(n.clone());
+            }
+            Stmt::Use(r) => {
+                out.push("use".into());
+                out.push(r.clone());
+            }
+            Stmt::Block(b) => {
+                out.push("{".into());
+                show_stmts(b, out);
+                out.push("}".into());
+            }
+        }
+    }
+}
+
+fn show_items(items: &[Item], out: &mut Vec<String>) {
+    for it in items {
+        match it {
+            Item::Ns(n, inner) => {
+                out.push("ns".into());
+                out.push(n.clone());
+                show_items(inner, out);
+                out.push("end".into());
+            }
+            Item::St(n, xs) | Item::En(n, xs) => {
+                out.push(if matches!(it, Item::St(..)) { "st" } else { "en" }.into());
+                out.push(n.clone());
+                out.extend(xs.iter().cloned());
+                out.push("end".into());
+            }
+            Item::Gl(n) => {
+                out.push("gl".into());
+                out.push(n.clone());
+            }
+            Item::Fn(n, pt, ps, body) => {
+                out.push("fn".into());
+                out.push(n.clone());
+                out.push(pt.clone());
+                out.extend(ps.iter().cloned());
+                out.push("{".into());
+                show_stmts(body, out);
+                out.push("}".into());
+            }
+        }
+    }
+}
+
+fn show_program(items: &[Item]) -> String {
+    let mut v = Vec::new();
+    show_items(items, &mut v);
+    v.join(" ")
+}
+
+/// entity key: kind letter (N S E G F L M V), ordinal, sub-index (members / enum values)
+type Key = (char, usize, usize);
+
+#[derive(Clone, Debug)]
+struct Ent {
+    key: Key,
+    name: String,
+    /// containing namespace ordinal (N S E G F), owning function (L), struct (M), enum (V)
+    owner: Option<usize>,
+    /// for functions: parameter type string
+    ptypes: String,
+}
+
+#[derive(Default, Clone)]
+struct Table {
+    ents: Vec<Ent>,
+    counts: HashMap<char, usize>,
+}
+
+impl Table {
+    fn of(&self, kind: char) -> Vec<&Ent> {
+        let mut v: Vec<&Ent> = self.ents.iter().filter(|e| e.key.0 == kind).collect();
+        v.sort_by_key(|e| (e.key.1, e.key.2));
+        v
+    }
+    fn get(&self, key: Key) -> Option<&Ent> {
+        self.ents.iter().find(|e| e.key == key)
+    }
+    fn ns_path(&self, ns: Option<usize>) -> Vec<usize> {
+        let mut v = Vec::new();
+        let mut cur = ns;
+        while let Some(i) = cur {
+            v.insert(0, i);
+            cur = self.get(('N', i, 0)).and_then(|e| e.owner);
+        }
+        v
+    }
+}
+
+/// Walk the program in registry order, calling `f(key, owner, old name)` for every entity and rebuilding the
+/// tree with the returned names.  Ordinals: namespaces by first opening, everything else by declaration order.
+struct Walker<'a> {
+    table: Table,
+    ns_ids: HashMap<(Option<usize>, String), usize>,
+    f: &'a mut dyn FnMut(Key, &str) -> String,
+}
+
+impl<'a> Walker<'a> {
+    fn next(&mut self, k: char) -> usize {
+        let c = self.table.counts.entry(k).or_insert(0);
+        *c += 1;
+        *c - 1
+    }
+    fn ent(&mut self, key: Key, name: &str, owner: Option<usize>, ptypes: &str) -> String {
+        if !self.table.ents.iter().any(|e| e.key == key) {
+            self.table.ents.push(Ent { key, name: name.to_string(), owner, ptypes: ptypes.to_string() });
+        }
+        (self.f)(key, name)
+    }
+    fn stmts(&mut self, ss: &[Stmt], func: usize) -> Vec<Stmt> {
+        ss.iter()
+            .map(|s| match s {
+                Stmt::Lv(n) => {
+                    let o = self.next('L');
+                    Stmt::Lv(self.ent(('L', o, 0), n, Some(func), ""))
+                }
+                Stmt::Use(r) => Stmt::Use(r.clone()),
+                Stmt::Block(b) => Stmt::Block(self.stmts(b, func)),
+            })
+            .collect()
+    }
+    fn items(&mut self, items: &[Item], cur: Option<usize>) -> Vec<Item> {
+        let mut out = Vec::new();
+        for it in items {
+            out.push(match it {
+                Item::Ns(n, inner) => {
+                    let id = match self.ns_ids.get(&(cur, n.clone())) {
+                        Some(i) => *i,
+                        None => {
+                            let i = self.next('N');
+                            self.ns_ids.insert((cur, n.clone()), i);
+                            i
+                        }
+                    };
+                    let nn = self.ent(('N', id, 0), n, cur, "");
+                    Item::Ns(nn, self.items(inner, Some(id)))
+                }
+                Item::St(n, ms) => {
+                    let o = self.next('S');
+                    let nn = self.ent(('S', o, 0), n, cur, "");
+                    let ms2 = ms.iter().enumerate().map(|(i, m)| self.ent(('M', o, i), m, Some(o), "")).collect();
+                    Item::St(nn, ms2)
+                }
+                Item::En(n, vs) => {
+                    let o = self.next('E');
+                    let nn = self.ent(('E', o, 0), n, cur, "");
+                    let vs2 = vs.iter().enumerate().map(|(i, v)| self.ent(('V', o, i), v, Some(o), "")).collect();
+                    Item::En(nn, vs2)
+                }
+                Item::Gl(n) => {
+                    let o = self.next('G');
+                    Item::Gl(self.ent(('G', o, 0), n, cur, ""))
+                }
+                Item::Fn(n, pt, ps, body) => {
+                    let o = self.next('F');
+                    let nn = self.ent(('F', o, 0), n, cur, pt);
+                    let ps2 = ps
+                        .iter()
+                        .map(|p| {
+                            let l = self.next('L');
+                            self.ent(('L', l, 0), p, Some(o), "")
+                        })
+                        .collect();
+                    Item::Fn(nn, pt.clone(), ps2, self.stmts(body, o))
+                }
+            });
+        }
+        out
+    }
+}
+
+fn walk(items: &[Item], f: &mut dyn FnMut(Key, &str) -> String) -> (Vec<Item>, Table) {
+    let mut w = Walker { table: Table::default(), ns_ids: HashMap::new(), f };
+    let out = w.items(items, None);
+    (out, w.table)
+}
+
+fn table_of(items: &[Item]) -> Table {
+    walk(items, &mut |_, n| n.to_string()).1
+}
+
+fn fresh_name(key: Key) -> String {
+    if key.0 == 'M' || key.0 == 'V' {
+        format!("zq{}{}x{}z", key.0, key.1, key.2)
+    } else {
+        format!("zq{}{}z", key.0, key.1)
+    }
+}
+
+/// `zqF12z` / `zqM3x1z` (+ suffix the exporter may have appended) -> (key, suffix)
+fn decode_fresh(tok: &str) -> Option<(Key, String)> {
+    let b = tok.as_bytes();
+    if b.len() < 5 || &b[0..2] != b"zq" || !b[2].is_ascii_uppercase() {
+        return None;
+    }
+    let kind = b[2] as char;
+    let mut i = 3;
+    let mut ord = 0usize;
+    let s = i;
+    while i < b.len() && b[i].is_ascii_digit() {
+        ord = ord * 10 + (b[i] - b'0') as usize;
+        i += 1;
+    }
+    if i == s {
+        return None;
+    }
+    let mut sub = 0usize;
+    if i < b.len() && b[i] == b'x' {
+        i += 1;
+        let s2 = i;
+        while i < b.len() && b[i].is_ascii_digit() {
+            sub = sub * 10 + (b[i] - b'0') as usize;
+            i += 1;
+        }
+        if i == s2 {
+            return None;
+        }
+    }
+    if i >= b.len() || b[i] != b'z' {
+        return None;
+    }
+    Some(((kind, ord, sub), tok[i + 1..].to_string()))
+}
+
+// ------------------------------------------------------------------------------------------ source text
+
+fn ptype(c: char) -> &'static str {
+    match c {
+        'f' => "float",
+        'u' => "uint",
+        _ => "int",
+    }
+}
+
+fn parg(c: char) -> &'static str {
+    match c {
+        'f' => "0.0",
+        'u' => "0u",
+        _ => "0",
+    }
+}
+
+fn qualified_src(t: &Table, e: &Ent) -> String {
+    let mut parts: Vec<String> = Vec::new();
+    let ns = match e.key.0 {
+        'V' => {
+            let en = t.get(('E', e.key.1, 0)).unwrap();
+            parts.push(en.name.clone());
+            en.owner
+        }
+        _ => e.owner,
+    };
+    let mut path: Vec<String> = t.ns_path(ns).iter().map(|i| t.get(('N', *i, 0)).unwrap().name.clone()).collect();
+    path.extend(parts);
+    path.push(e.name.clone());
+    format!("::{}", path.join("::"))
+}
+
+fn parse_ref(r: &str) -> Option<Key> {
+    let kind = r.chars().next()?;
+    let rest = &r[1..];
+    if let Some((a, b)) = rest.split_once('.') {
+        Some((kind, a.parse().ok()?, b.parse().ok()?))
+    } else {
+        Some((kind, rest.parse().ok()?, 0))
+    }
+}
+
+fn src_stmts(ss: &[Stmt], t: &Table, out: &mut String, depth: usize) {
+    for s in ss {
+        out.push_str(&"    ".repeat(depth));
+        match s {
+            Stmt::Lv(n) => out.push_str(&format!("int {} = 0;\n", n)),
+            Stmt::Block(b) => {
+                out.push_str("{\n");
+                src_stmts(b, t, out, depth + 1);
+                out.push_str(&"    ".repeat(depth));
+                out.push_str("}\n");
+            }
+            Stmt::Use(r) => match parse_ref(r).and_then(|k| t.get(k)) {
+                Some(e) if e.key.0 == 'L' => out.push_str(&format!("{};\n", e.name)),
+                Some(e) if e.key.0 == 'F' => {
+                    let args: Vec<&str> = if e.ptypes == "-" { vec![] } else { e.ptypes.chars().map(parg).collect() };
+                    out.push_str(&format!("{}({});\n", qualified_src(t, e), args.join(", ")));
+                }
+                Some(e) => out.push_str(&format!("{};\n", qualified_src(t, e))),
+                None => out.push_str("0;\n"),
+            },
+        }
+    }
+}
+
+fn src_items(items: &[Item], t: &Table, out: &mut String) {
+    for it in items {
+        match it {
+            Item::Ns(n, inner) => {
+                out.push_str(&format!("namespace {} {{\n", n));
+                src_items(inner, t, out);
+                out.push_str("}\n");
+            }
+            Item::St(n, ms) => {
+                out.push_str(&format!("struct {} {{", n));
+                for m in ms {
+                    out.push_str(&format!(" int {};", m));
+                }
+                out.push_str(" };\n");
+            }
+            Item::En(n, vs) => out.push_str(&format!("enum {} {{ {} }};\n", n, vs.join(", "))),
+            Item::Gl(n) => out.push_str(&format!("static int {} = 0;\n", n)),
+            Item::Fn(n, pt, ps, body) => {
+                let params: Vec<String> = if pt == "-" {
+                    vec![]
+                } else {
+                    pt.chars().zip(ps.iter()).map(|(c, p)| format!("{} {}", ptype(c), p)).collect()
+                };
+                out.push_str(&format!("int {}({}) {{\n", n, params.join(", ")));
+                src_stmts(body, t, out, 1);
+                out.push_str("    return 0;\n}\n");
+            }
+        }
+    }
+}
+
+fn source_of(items: &[Item]) -> String {
+    let t = table_of(items);
+    let mut s = String::new();
+    src_items(items, &t, &mut s);
+    s
+}
+
+// ------------------------------------------------------------------------------------------ real code
+
+fn compile_text(src: &str, msl: bool) -> Result<String, String> {
+    let mut inc = MemFiles(vec![("main.rssl".to_string(), src.to_string())]);
+    let target = if msl { rssl::Target::Msl } else { rssl::Target::HlslForDirectX };
+    let args = rssl::CompileArgs::new("main.rssl", &mut inc, target).no_pipeline_mode();
+    match guard(|| rssl::compile(args)) {
+        Err(p) => Err(format!("panic {}", p)),
+        Ok(Err(rssl::CompileError::Text(t))) => Err(format!("error {}", t.lines().next().unwrap_or(""))),
+        Ok(Err(_)) => Err("error other".to_string()),
+        Ok(Ok(ps)) => Ok(String::from_utf8_lossy(&ps[0].data).to_string()),
+    }
+}
+
+/// (key, qualified name) for every symbol `NameMap::build` names, keyed by ordinal; also the registry's source
+/// names so that the ordinal convention of the descriptor can be checked
+fn real_names(module: &ir::Module, reserved: &[String], intr: bool) -> Vec<(Key, Vec<String>, String)> {
+    let rs: Vec<&str> = reserved.iter().map(|s| s.as_str()).collect();
+    let nm = NameMap::build(module, &rs, intr);
+    let mut out = Vec::new();
+    for i in 0..module.namespace_registry.get_namespace_count() {
+        let id = ir::NamespaceId(i);
+        out.push((
+            ('N', i as usize, 0),
+            nm.get_name_qualified(NameSymbol::Namespace(id)).0,
+            module.namespace_registry.get_namespace_name(id).to_string(),
+        ));
+    }
+    for i in 0..module.struct_registry.len() {
+        out.push((
+            ('S', i, 0),
+            nm.get_name_qualified(NameSymbol::Struct(ir::StructId(i as u32))).0,
+            module.struct_registry[i].name.node.clone(),
+        ));
+    }
+    for i in 0..module.enum_registry.get_enum_count() {
+        out.push((
+            ('E', i as usize, 0),
+            nm.get_name_qualified(NameSymbol::Enum(ir::EnumId(i))).0,
+            module.enum_registry.get_enum_definition(ir::EnumId(i)).name.node.clone(),
+        ));
+    }
+    let mut k = 0;
+    for i in 0..module.global_registry.len() {
+        if module.global_registry[i].is_intrinsic {
+            continue;
+        }
+        out.push((
+            ('G', k, 0),
+            nm.get_name_qualified(NameSymbol::GlobalVariable(ir::GlobalId(i as u32))).0,
+            module.global_registry[i].name.node.clone(),
+        ));
+        k += 1;
+    }
+    let mut k = 0;
+    for id in module.function_registry.iter() {
+        if module.function_registry.get_intrinsic_data(id).is_some() {
+            continue;
+        }
+        let sig = module.function_registry.get_function_signature(id);
+        if !sig.template_params.is_empty() && module.function_registry.get_template_instantiation_data(id).is_none() {
+            continue;
+        }
+        out.push((
+            ('F', k, 0),
+            nm.get_name_qualified(NameSymbol::Function(id)).0,
+            module.function_registry.get_function_name(id).to_string(),
+        ));
+        k += 1;
+    }
+    for id in module.variable_registry.iter() {
+        out.push((
+            ('L', id.0 as usize, 0),
+            nm.get_name_qualified(NameSymbol::LocalVariable(id)).0,
+            module.variable_registry.get_local_variable(id).name.node.clone(),
+        ));
+    }
+    out
+}
+
+// ------------------------------------------------------------------------------------------ output lexer
+
+#[derive(Clone, Debug, PartialEq)]
+enum Tok {
+    Id(String),
+    Other(String),
+}
+
+fn lex(text: &str) -> Vec<Tok> {
+    let b: Vec<char> = text.chars().collect();
+    let mut i = 0;
+    let mut out = Vec::new();
+    while i < b.len() {
+        let c = b[i];
+        if c.is_whitespace() {
+            i += 1;
+        } else if c == '/' && i + 1 < b.len() && b[i + 1] == '/' {
+            while i < b.len() && b[i] != '\n' {
+                i += 1;
+            }
+        } else if c == '/' && i + 1 < b.len() && b[i + 1] == '*' {
+            i += 2;
+            while i + 1 < b.len() && !(b[i] == '*' && b[i + 1] == '/') {
+                i += 1;
+            }
+            i += 2;
+        } else if c.is_ascii_alphabetic() || c == '_' {
+            let s = i;
+            while i < b.len() && (b[i].is_ascii_alphanumeric() || b[i] == '_') {
+                i += 1;
+            }
+            out.push(Tok::Id(b[s..i].iter().collect()));
+        } else if c.is_ascii_digit() {
+            let s = i;
+            while i < b.len() && (b[i].is_ascii_alphanumeric() || b[i] == '_' || b[i] == '.') {
+                i += 1;
+            }
+            out.push(Tok::Other(b[s..i].iter().collect()));
+        } else if c == ':' && i + 1 < b.len() && b[i + 1] == ':' {
+            out.push(Tok::Other("::".into()));
+            i += 2;
+        } else {
+            out.push(Tok::Other(c.to_string()));
+            i += 1;
+        }
+    }
+    out
+}
+
+// ------------------------------------------------------------------------------------------ output oracle
+
+#[derive(Clone, Debug, PartialEq, Eq, Hash, PartialOrd, Ord)]
+enum ScopeKey {
+    Root,
+    Ns(usize),
+    St(usize),
+    En(usize),
+    Anon(usize),
+}
+
+struct Resolver {
+    scopes: HashMap<ScopeKey, Vec<(String, Key)>>,
+    frames: Vec<ScopeKey>,
+    anon: usize,
+    declared: HashSet<Key>,
+    fails: BTreeSet<String>,
+    emitted: BTreeMap<Key, String>,
+    target: String,
+}
+
+impl Resolver {
+    fn in_function(&self) -> bool {
+        self.frames.iter().any(|f| matches!(f, ScopeKey::Anon(_)))
+    }
+    fn declare_in(&mut self, scope: ScopeKey, name: &str, key: Key) {
+        let v = self.scopes.entry(scope).or_default();
+        if v.iter().any(|(n, k)| n == name && *k == key) {
+            return;
+        }
+        if let Some((_, other)) = v.iter().find(|(n, k)| n == name && *k != key) {
+            let mut ks = [other.0, key.0];
+            ks.sort();
+            self.fails.insert(format!(
+                "dup:{}:{}{} | {} and {} are both declared as '{}' in one scope of the output",
+                self.target,
+                ks[0],
+                ks[1],
+                show_key(*other),
+                show_key(key),
+                name
+            ));
+        }
+        v.push((name.to_string(), key));
+    }
+    fn declare(&mut self, name: &str, key: Key) {
+        let cur = self.frames.last().cloned().unwrap_or(ScopeKey::Root);
+        self.declare_in(cur, name, key);
+        self.declared.insert(key);
+    }
+    fn sub_scope(key: Key) -> Option<ScopeKey> {
+        match key.0 {
+            'N' => Some(ScopeKey::Ns(key.1)),
+            'S' => Some(ScopeKey::St(key.1)),
+            'E' => Some(ScopeKey::En(key.1)),
+            _ => None,
+        }
+    }
+    /// C++ lookup of `a::b::c` (or `::a::b::c`) from the current frame stack
+    fn resolve(&self, chain: &[String], absolute: bool) -> Vec<Key> {
+        let qualified = chain.len() > 1;
+        let first = &chain[0];
+        let pick = |scope: &ScopeKey| -> Vec<Key> {
+            self.scopes
+                .get(scope)
+                .map(|v| {
+                    v.iter()
+                        .filter(|(n, k)| n == first && (!qualified || Self::sub_scope(*k).is_some()))
+                        .map(|(_, k)| *k)
+                        .collect()
+                })
+                .unwrap_or_default()
+        };
+        let mut cands: Vec<Key> = Vec::new();
+        if absolute {
+            cands = pick(&ScopeKey::Root);
+        } else {
+            for f in self.frames.iter().rev() {
+                cands = pick(f);
+                if !cands.is_empty() {
+                    break;
+                }
+            }
+        }
+        for comp in &chain[1..] {
+            let mut next = Vec::new();
+            for c in &cands {
+                if let Some(sc) = Self::sub_scope(*c) {
+                    if let Some(v) = self.scopes.get(&sc) {
+                        let last = std::ptr::eq(comp, chain.last().unwrap());
+                        for (n, k) in v {
+                            if n == comp && (last || Self::sub_scope(*k).is_some()) {
+                                next.push(*k);
+                            }
+                        }
+                    }
+                }
+            }
+            cands = next;
+        }
+        cands.sort();
+        cands.dedup();
+        cands
+    }
+}
+
+fn show_key(k: Key) -> String {
+    if k.0 == 'M' || k.0 == 'V' { format!("{}{}.{}", k.0, k.1, k.2) } else { format!("{}{}", k.0, k.1) }
+}
+
+/// Walk the two aligned token streams (t0 = output for the skeleton P0, t1 = output for P)
+fn check_output(t0: &[Tok], t1: &[Tok], spec: &HashSet<String>, real: &[String], target: &str) -> Resolver {
+    let mut r = Resolver {
+        scopes: HashMap::new(),
+        frames: vec![ScopeKey::Root],
+        anon: 0,
+        declared: HashSet::new(),
+        fails: BTreeSet::new(),
+        emitted: BTreeMap::new(),
+        target: target.to_string(),
+    };
+    // skeleton
+    if t0.len() != t1.len() {
+        r.fails.insert(format!("skeleton:{} | {} tokens for the skeleton program, {} for the renamed one", target, t0.len(), t1.len()));
+        return r;
+    }
+    for (a, b) in t0.iter().zip(t1.iter()) {
+        match (a, b) {
+            (Tok::Other(x), Tok::Other(y)) if x == y => {}
+            (Tok::Id(x), Tok::Id(y)) => match decode_fresh(x) {
+                Some((key, suffix)) => {
+                    if !suffix.is_empty() {
+                        r.fails.insert(format!("verbatim:fresh:{} | unique fresh name of {} printed as '{}'", key.0, show_key(key), x));
+                    }
+                    match r.emitted.get(&key) {
+                        Some(prev) if prev != y => {
+                            r.fails.insert(format!("inconsistent:{}:{} | {} printed as '{}' and '{}'", target, key.0, show_key(key), prev, y));
+                        }
+                        Some(_) => {}
+                        None => {
+                            r.emitted.insert(key, y.clone());
+                        }
+                    }
+                }
+                None => {
+                    if x != y {
+                        r.fails.insert(format!("skeleton:{} | non-entity identifier '{}' became '{}'", target, x, y));
+                    }
+                }
+            },
+            _ => {
+                r.fails.insert(format!("skeleton:{} | token {:?} became {:?}", target, a, b));
+                return r;
+            }
+        }
+    }
+    let id0 = |i: usize| -> Option<&str> {
+        match t0.get(i) {
+            Some(Tok::Id(s)) => Some(s.as_str()),
+            _ => None,
+        }
+    };
+    let id1 = |i: usize| -> String {
+        match t1.get(i) {
+            Some(Tok::Id(s)) => s.clone(),
+            _ => String::new(),
+        }
+    };
+    let is = |i: usize, s: &str| -> bool { matches!(t0.get(i), Some(Tok::Other(x)) if x == s) };
+    let reserved_check = |r: &mut Resolver, name: &str, key: Key| {
+        if spec.contains(name) {
+            let listed = real.iter().any(|x| x == name);
+            let k = match key.0 {
+                'M' | 'V' => format!("reserved-unrenamed:{}:{}", target, key.0),
+                'N' => format!("reserved-namespace-decl:{}", target),
+                _ if listed => format!("reserved-listed-but-printed:{}:{}", target, key.0),
+                _ => format!("reserved-missing:{}:{}", target, name),
+            };
+            r.fails.insert(format!("{} | {} is declared as '{}', a reserved/built-in name of the target", k, show_key(key), name));
+        }
+    };
+    let mut i = 0;
+    // state of a function header being scanned: depth of parentheses
+    let mut header_paren: Option<usize> = None;
+    let mut paren = 0usize;
+    while i < t0.len() {
+        match &t0[i] {
+            Tok::Other(s) => {
+                match s.as_str() {
+                    "(" => paren += 1,
+                    ")" => {
+                        paren = paren.saturating_sub(1);
+                        if header_paren == Some(paren) {
+                            // end of a parameter list: a body `{` keeps the function frame, `;` drops it
+                            header_paren = None;
+                            let mut j = i + 1;
+                            while j < t0.len() && !is(j, "{") && !is(j, ";") {
+                                j += 1;
+                            }
+                            if is(j, ";") {
+                                r.frames.pop();
+                            }
+                            i = j + 1;
+                            continue;
+                        }
+                    }
+                    "{" => {
+                        r.anon += 1;
+                        let k = ScopeKey::Anon(r.anon);
+                        r.frames.push(k);
+                    }
+                    "}" => {
+                        if r.frames.len() > 1 {
+                            r.frames.pop();
+                        }
+                    }
+                    _ => {}
+                }
+                i += 1;
+            }
+            Tok::Id(w) => {
+                // scope-opening keywords
+                if (w == "namespace" || w == "struct" || w == "enum") && id0(i + 1).is_some() {
+                    let mut j = i + 1;
+                    let scoped_enum = w == "enum" && (id0(j) == Some("class") || id0(j) == Some("struct"));
+                    if scoped_enum {
+                        j += 1;
+                    }
+                    if let Some((key, _)) = id0(j).and_then(decode_fresh) {
+                        let name = id1(j);
+                        reserved_check(&mut r, &name, key);
+                        r.declare(&name, key);
+                        if is(j + 1, "{") {
+                            let sk = Resolver::sub_scope(key).unwrap_or(ScopeKey::Root);
+                            r.frames.push(sk);
+                            if w == "enum" {
+                                // enumerators: first identifier after `{` or `,`; unscoped ones are also visible outside
+                                let mut k = j + 2;
+                                let mut expect = true;
+                                while k < t0.len() && !is(k, "}") {
+                                    if expect {
+                                        if let Some((vk, _)) = id0(k).and_then(decode_fresh) {
+                                            let vn = id1(k);
+                                            reserved_check(&mut r, &vn, vk);
+                                            r.declare(&vn, vk);
+                                            if !scoped_enum && r.frames.len() >= 2 {
+                                                let parent = r.frames[r.frames.len() - 2].clone();
+                                                r.declare_in(parent, &vn, vk);
+                                            }
+                                        }
+                                        expect = false;
+                                    }
+                                    if is(k, ",") {
+                                        expect = true;
+                                    }
+                                    k += 1;
+                                }
+                                r.frames.pop();
+                                i = k + 1;
+                                continue;
+                            }
+                            i = j + 2;
+                            continue;
+                        }
+                        i = j + 1;
+                        continue;
+                    }
+                }
+                // member access: `.name` is looked up in the object's type, not by scope
+                if i > 0 && is(i - 1, ".") {
+                    i += 1;
+                    continue;
+                }
+                // identifier chain
+                let absolute = i > 0 && is(i - 1, "::");
+                let mut j = i;
+                let mut chain0 = vec![w.clone()];
+                let mut chain1 = vec![id1(i)];
+                while is(j + 1, "::") && id0(j + 2).is_some() {
+                    chain0.push(id0(j + 2).unwrap().to_string());
+                    chain1.push(id1(j + 2));
+                    j += 2;
+                }
+                let last = decode_fresh(chain0.last().unwrap());
+                if let Some((key, _)) = last {
+                    let single = chain0.len() == 1 && !absolute;
+                    let in_fn = r.in_function();
+                    let in_header = header_paren.is_some();
+                    let decl = single
+                        && match key.0 {
+                            'F' => !in_fn && is(j + 1, "("),
+                            'L' => !r.declared.contains(&key) || (in_header && false),
+                            'G' => (in_header) || (!in_fn && !r.declared.contains(&key)),
+                            'M' => !r.declared.contains(&key),
+                            _ => false,
+                        };
+                    if decl {
+                        let name = chain1[0].clone();
+                        reserved_check(&mut r, &name, key);
+                        r.declare(&name, key);
+                        if key.0 == 'F' {
+                            // open the function frame for the parameter list (and the body, if any)
+                            r.anon += 1;
+                            let k = ScopeKey::Anon(r.anon);
+                            r.frames.push(k);
+                            header_paren = Some(paren);
+                        }
+                    } else {
+                        let got = r.resolve(&chain1, absolute);
+                        if got != vec![key] {
+                            let shown: Vec<String> = got.iter().map(|k| show_key(*k)).collect();
+                            let kinds: String = got.iter().map(|k| k.0).collect();
+                            r.fails.insert(format!(
+                                "capture:{}:{}:{}{} | '{}' printed for {} resolves to [{}] in the output",
+                                target,
+                                key.0,
+                                if chain1.len() > 1 { "q" } else { "" },
+                                kinds,
+                                chain1.join("::"),
+                                show_key(key),
+                                shown.join(",")
+                            ));
+                        }
+                    }
+                }
+                i = j + 1;
+            }
+        }
+    }
+    r
+}
+
+// ------------------------------------------------------------------------------------------ one case
+
+struct Ctx {
+    tables: Tables,
+    hist: Hist,
+}
+
+fn source_scope_names(t: &Table, e: &Ent) -> Vec<String> {
+    // the names declared in the source scope of `e` (other than `e` itself)
+    let mut v = Vec::new();
+    for o in &t.ents {
+        if o.key == e.key {
+            continue;
+        }
+        let same = match (e.key.0, o.key.0) {
+            ('L', 'L') => o.owner == e.owner,
+            ('M', 'M') => o.owner == e.owner,
+            ('V', 'V') => o.owner == e.owner || enum_parent(t, o) == enum_parent(t, e),
+            ('V', k) if "NSEGF".contains(k) => enum_parent(t, e) == Some(o.owner),
+            (k, 'V') if "NSEGF".contains(k) => enum_parent(t, o) == Some(e.owner),
+            (a, b) if "NSEGF".contains(a) && "NSEGF".contains(b) => o.owner == e.owner,
+            _ => false,
+        };
+        if same {
+            v.push(o.name.clone());
+        }
+    }
+    v
+}
+
+fn enum_parent(t: &Table, v: &Ent) -> Option<Option<usize>> {
+    t.get(('E', v.key.1, 0)).map(|e| e.owner)
+}
+
+fn run_case(target: &str, prog: &str, cx: &mut Ctx, out: &mut Out) {
+    let req = format!("C15.names\t{}\t{}", target, prog);
+    let msl = target == "m";
+    let ti = if msl { 1 } else { 0 };
+    let items = match parse_program(prog) {
+        Some(i) => i,
+        None => {
+            out.case(&req, "bad-request", "SKIP:descriptor does not parse");
+            return;
+        }
+    };
+    let table = table_of(&items);
+    let src = source_of(&items);
+    let module = match guard(|| front_end_src(&src)) {
+        Err(p) => {
+            cx.hist.add("skip:front-end panic");
+            out.case(&req, &format!("front-end-panic {}", p), "SKIP:front end panics (not an accepted program; see notes, C08)");
+            return;
+        }
+        Ok(Err(e)) => {
+            cx.hist.add(&format!("skip:{}-error", e.stage()));
+            out.case(&req, &format!("{}-error", e.stage()), "SKIP:not an accepted program");
+            return;
+        }
+        Ok(Ok(m)) => m,
+    };
+    let reserved = &cx.tables.real[ti];
+    let intr = !msl;
+    let names = match guard(|| real_names(&module, reserved, intr)) {
+        Ok(n) => n,
+        Err(p) => {
+            cx.hist.add("panic:NameMap::build");
+            out.case(&req, &format!("panic:{}", p), &format!("FAIL:panic {}", p));
+            return;
+        }
+    };
+    let obs: Vec<String> = names.iter().map(|(k, q, _)| format!("{}{}={}", k.0, k.1, q.join("::"))).collect();
+    let obs = obs.join(" ");
+    // the descriptor's ordinal convention against the registries
+    for (k, _, srcname) in &names {
+        match table.get(*k) {
+            Some(e) if &e.name == srcname => {}
+            _ => {
+                cx.hist.add("skip:registry order differs from descriptor order");
+                out.case(&req, &obs, &format!("SKIP:registry order differs at {}", show_key(*k)));
+                return;
+            }
+        }
+    }
+    let n_named = table.ents.iter().filter(|e| "NSEGFL".contains(e.key.0)).count();
+    if n_named != names.len() {
+        cx.hist.add("skip:registry size differs");
+        out.case(&req, &obs, "SKIP:registry size differs from descriptor");
+        return;
+    }
+    let mut fails: BTreeSet<String> = BTreeSet::new();
+    let spec = &cx.tables.spec[ti];
+    let is_reserved = |n: &str| spec.contains(n) || reserved.iter().any(|r| r == n);
+    // ---- oracle on the assignment itself
+    let leaf: HashMap<Key, String> = names.iter().map(|(k, q, _)| (*k, q.last().cloned().unwrap_or_default())).collect();
+    for (k, q, _) in &names {
+        let l = q.last().unwrap();
+        if is_reserved(l) {
+            fails.insert(format!("reserved-missing:{}:{} | NameMap::build names {} '{}', a reserved/built-in name of the target", target, l, show_key(*k), l));
+        }
+    }
+    for a in &table.ents {
+        for b in &table.ents {
+            if a.key < b.key && "NSEGF".contains(a.key.0) && "NSEGF".contains(b.key.0) && a.owner == b.owner && leaf[&a.key] == leaf[&b.key] {
+                fails.insert(format!("dup-namemap:{} | NameMap::build names {} and {} both '{}' in one scope", target, show_key(a.key), show_key(b.key), leaf[&a.key]));
+            }
+        }
+    }
+    // ---- oracle on the emitted text
+    let (p0, _) = walk(&items, &mut |k, _| fresh_name(k));
+    let src0 = source_of(&p0);
+    let text1 = compile_text(&src, msl);
+    let text0 = compile_text(&src0, msl);
+    let mut emitted: BTreeMap<Key, String> = BTreeMap::new();
+    match (&text0, &text1) {
+        (Err(e), _) => {
+            cx.hist.add("skip:skeleton does not compile");
+            out.case(&req, &obs, &format!("SKIP:skeleton program does not compile: {}", e));
+            return;
+        }
+        (Ok(_), Err(e)) => {
+            if e.starts_with("panic") {
+                fails.insert(format!("panic {}", e.trim_start_matches("panic ")));
+            } else {
+                fails.insert(format!("accept:{} | renamed program fails to export while the skeleton exports: {}", target, e));
+            }
+        }
+        (Ok(a), Ok(b)) => {
+            let (t0, t1) = (lex(a), lex(b));
+            let r = check_output(&t0, &t1, spec, reserved, target);
+            fails.extend(r.fails.iter().cloned());
+            emitted = r.emitted.clone();
+            for (k, n) in &r.emitted {
+                if let Some(l) = leaf.get(k) {
+                    if l != n {
+                        fails.insert(format!("tie:{}:{} | {} printed as '{}' but NameMap::build with the source table gives '{}'", target, k.0, show_key(*k), n, l));
+                    }
+                }
+            }
+        }
+    }
+    // ---- verbatim
+    let all_emitted: HashSet<String> = emitted.values().cloned().chain(leaf.values().cloned()).collect();
+    for e in &table.ents {
+        let printed = emitted.get(&e.key).or_else(|| leaf.get(&e.key));
+        if let Some(p) = printed {
+            if p != &e.name && !is_reserved(&e.name) && !source_scope_names(&table, e).contains(&e.name) {
+                let class = if all_emitted.contains(&e.name) { "generated-clash" } else { "other" };
+                let lvl = if e.key.0 == 'L' { "local" } else { "global" };
+                fails.insert(format!(
+                    "verbatim:{}:{} | {} '{}' is unique in its scope and not reserved but printed as '{}'",
+                    class, lvl, show_key(e.key), e.name, p
+                ));
+            }
+        }
+    }
+    cx.hist.add(if fails.is_empty() { "ok" } else { "fail" });
+    cx.hist.add(&format!("entities:{}", (table.ents.len() / 4) * 4));
+    if obs.contains("_0") || obs.contains("_1") {
+        cx.hist.add("with-generated-name");
+    }
+    if fails.is_empty() {
+        out.case(&req, &obs, "ok");
+    } else {
+        for f in &fails {
+            cx.hist.add(&format!("fail:{}", f.split(|c| c == ':' || c == ' ').next().unwrap_or("")));
+            out.case(&req, &obs, &format!("FAIL:{}", f));
+        }
+    }
+}
+
+// ------------------------------------------------------------------------------------------ generator
+
+struct Pools {
+    ordinary: Vec<String>,
+    special: Vec<String>,
+}
+
+struct Gen<'a> {
+    rng: &'a mut Rng,
+    pool: Vec<String>,
+    refs_g: Vec<String>,
+    refs_f: Vec<String>,
+    refs_v: Vec<String>,
+    counts: HashMap<char, usize>,
+}
+
+impl<'a> Gen<'a> {
+    fn name(&mut self) -> String {
+        let base = self.rng.pick(&self.pool).clone();
+        match self.rng.below(10) {
+            0 => format!("{}_0", base),
+            1 => format!("{}_1", base),
+            2 => format!("{}_0_0", base),
+            _ => base,
+        }
+    }
+    fn next(&mut self, k: char) -> usize {
+        let c = self.counts.entry(k).or_insert(0);
+        *c += 1;
+        *c - 1
+    }
+    fn stmts(&mut self, depth: usize, visible: &mut Vec<usize>) -> Vec<Stmt> {
+        let n = self.rng.below(4) as usize;
+        let mut out = Vec::new();
+        for _ in 0..n {
+            match self.rng.below(10) {
+                0..=3 => {
+                    let l = self.next('L');
+                    visible.push(l);
+                    out.push(Stmt::Lv(self.name()));
+                }
+                4 if depth < 2 => {
+                    let mark = visible.len();
+                    let b = self.stmts(depth + 1, visible);
+                    visible.truncate(mark);
+                    out.push(Stmt::Block(b));
+                }
+                5 | 6 if !self.refs_g.is_empty() => out.push(Stmt::Use(self.rng.pick(&self.refs_g).clone())),
+                7 if !self.refs_f.is_empty() => out.push(Stmt::Use(self.rng.pick(&self.refs_f).clone())),
+                8 if !self.refs_v.is_empty() => out.push(Stmt::Use(self.rng.pick(&self.refs_v).clone())),
+                _ if !visible.is_empty() => out.push(Stmt::Use(format!("L{}", self.rng.pick(visible)))),
+                _ => {}
+            }
+        }
+        out
+    }
+    fn items(&mut self, depth: usize, n: usize) -> Vec<Item> {
+        let mut out = Vec::new();
+        for _ in 0..n {
+            match self.rng.below(12) {
+                0 | 1 if depth < 2 => {
+                    let name = self.name();
+                    self.next('N');
+                    let k = 1 + self.rng.below(3) as usize;
+                    let inner = self.items(depth + 1, k);
+                    out.push(Item::Ns(name, inner));
+                }
+                2 => {
+                    let s = self.next('S');
+                    let _ = s;
+                    let k = 1 + self.rng.below(2) as usize;
+                    let ms = (0..k).map(|_| self.name()).collect();
+                    out.push(Item::St(self.name(), ms));
+                }
+                3 => {
+                    let e = self.next('E');
+                    let k = 1 + self.rng.below(2) as usize;
+                    let vs: Vec<String> = (0..k).map(|_| self.name()).collect();
+                    for i in 0..k {
+                        self.refs_v.push(format!("V{}.{}", e, i));
+                    }
+                    out.push(Item::En(self.name(), vs));
+                }
+                4 | 5 | 6 => {
+                    let g = self.next('G');
+                    self.refs_g.push(format!("G{}", g));
+                    out.push(Item::Gl(self.name()));
+                }
+                _ => {
+                    let f = self.next('F');
+                    let np = self.rng.below(3) as usize;
+                    let pt: String = if np == 0 { "-".into() } else { (0..np).map(|_| *self.rng.pick(&['i', 'f', 'u'])).collect() };
+                    let mut visible = Vec::new();
+                    let ps: Vec<String> = (0..np)
+                        .map(|_| {
+                            let l = self.next('L');
+                            visible.push(l);
+                            self.name()
+                        })
+                        .collect();
+                    let name = self.name();
+                    let body = self.stmts(0, &mut visible);
+                    self.refs_f.push(format!("F{}", f));
+                    out.push(Item::Fn(name, pt, ps, body));
+                }
+            }
+        }
+        out
+    }
+}
+
+/// Namespace ordinals of the generator must follow first opening; reopening an existing namespace would shift
+/// them, so the generator's references are only valid when every `ns` opens a new namespace.  The references are
+/// re-validated here against the real table: uses whose target does not exist or is not visible are dropped.
+fn sanitize(items: &[Item]) -> Vec<Item> {
+    let t = table_of(items);
+    fn fix(ss: &[Stmt], t: &Table, func: usize, vis: &mut Vec<(usize, String)>, next_local: &mut usize) -> Vec<Stmt> {
+        let mut out = Vec::new();
+        for s in ss {
+            match s {
+                Stmt::Lv(n) => {
+                    vis.push((*next_local, n.clone()));
+                    *next_local += 1;
+                    out.push(s.clone());
+                }
+                Stmt::Block(b) => {
+                    let mark = vis.len();
+                    let b2 = fix(b, t, func, vis, next_local);
+                    vis.truncate(mark);
+                    out.push(Stmt::Block(b2));
+                }
+                Stmt::Use(r) => {
+                    let ok = match parse_ref(r) {
+                        Some(k) if k.0 == 'L' => {
+                            // visible, and the innermost visible local of that source name
+                            match vis.iter().rev().find(|(o, _)| *o == k.1) {
+                                Some((_, n)) => vis.iter().rev().find(|(_, m)| m == n).map(|(o, _)| *o) == Some(k.1),
+                                None => false,
+                            }
+                        }
+                        Some(k) if k.0 == 'F' => k.1 <= func && t.get(k).is_some(),
+                        Some(k) => t.get(k).is_some(),
+                        None => false,
+                    };
+                    if ok {
+                        out.push(s.clone());
+                    }
+                }
+            }
+        }
+        out
+    }
+    fn go(items: &[Item], t: &Table, nf: &mut usize, nl: &mut usize) -> Vec<Item> {
+        items
+            .iter()
+            .map(|it| match it {
+                Item::Ns(n, inner) => Item::Ns(n.clone(), go(inner, t, nf, nl)),
+                Item::Fn(n, pt, ps, body) => {
+                    let f = *nf;
+                    *nf += 1;
+                    let mut vis = Vec::new();
+                    for p in ps {
+                        vis.push((*nl, p.clone()));
+                        *nl += 1;
+                    }
+                    let b = fix(body, t, f, &mut vis, nl);
+                    Item::Fn(n.clone(), pt.clone(), ps.clone(), b)
+                }
+                other => other.clone(),
+            })
+            .collect()
+    }
+    go(items, &t, &mut 0, &mut 0)
+}
+
+fn random_program(rng: &mut Rng, pools: &Pools) -> Vec<Item> {
+    let mut pool = Vec::new();
+    let n_ord = 1 + rng.below(3);
+    for _ in 0..n_ord {
+        pool.push(rng.pick(&pools.ordinary).clone());
+    }
+    let n_sp = rng.below(3);
+    for _ in 0..n_sp {
+        pool.push(rng.pick(&pools.special).clone());
+    }
+    let mut g = Gen { rng, pool, refs_g: vec![], refs_f: vec![], refs_v: vec![], counts: HashMap::new() };
+    let n = 2 + g.rng.below(5) as usize;
+    let items = g.items(0, n);
+    sanitize(&items)
+}
+
+/// deterministic sweep: every name of the real tables and of the independent lists in every declaration position
+fn sweep_programs(name: &str) -> Vec<String> {
+    vec![
+        format!("fn {} - {{ }}", name),
+        format!("gl {}", name),
+        format!("st {} zqm end", name),
+        format!("st zqs {} end", name),
+        format!("en {} zqv end", name),
+        format!("en zqe {} end", name),
+        format!("ns {} gl zqg end", name),
+        format!("fn zqf i {} {{ lv zql use L0 }}", name),
+        format!("fn zqf - {{ lv {} use L0 }}", name),
+        // the name next to the candidates the generator derives from it
+        format!("fn {0} i zqa {{ }} fn {0} f zqb {{ }} fn {0}_0 - {{ }} gl {0}_1", name),
+        format!("fn {0}_0 - {{ }} fn zqf i {0} {{ use L0 use F0 }}", name),
+    ]
+}
+
+pub fn run(args: &Args, out: &mut Out) {
+    let mut cx = Ctx { tables: tables(), hist: Hist::default() };
+    if let Some(lines) = args.request_lines() {
+        for line in lines {
+            let f: Vec<&str> = line.split('\t').collect();
+            if f.len() == 3 && f[0] == "C15.names" {
+                run_case(f[1], f[2], &mut cx, out);
+            } else if f.len() == 3 && f[0] == "C15.src" {
+                // reproducer aid: raw RSSL source (\n escaped) -> emitted text; answered `unsupported` by the model
+                let src = f[2].replace("\\n", "\n");
+                let text = compile_text(&src, f[1] == "m").unwrap_or_else(|e| e);
+                out.case(&line, &format!("unsupported-op {}", text), "ok");
+            }
+        }
+        out.stat(&format!("{{\"mode\":\"replay\",\"hist\":{}}}", cx.hist.json()));
+        return;
+    }
+    let mut rng = Rng::new(args.seed);
+    // (1) sweep over reserved / built-in names
+    let mut special: Vec<String> = Vec::new();
+    for t in 0..2 {
+        for n in cx.tables.real[t].iter().chain(cx.tables.spec[t].iter()) {
+            if is_ident(n) && !STRUCTURE_WORDS.contains(&n.as_str()) && !special.contains(n) {
+                special.push(n.clone());
+            }
+        }
+    }
+    special.sort();
+    let mut swept = 0u64;
+    let stride = if args.thorough() { 1 } else { 4 };
+    let off = (args.seed % stride) as usize;
+    for (i, n) in special.iter().enumerate() {
+        for (j, p) in sweep_programs(n).iter().enumerate() {
+            // quick: every name as a function and as a local; the other positions on a seed-dependent quarter
+            if !(j == 0 || j == 8 || (i + j) % stride as usize == off) {
+                continue;
+            }
+            for t in ["h", "m"] {
+                run_case(t, p, &mut cx, out);
+                swept += 1;
+            }
+        }
+    }
+    // (2) random programs over small name pools (shared names across scopes, name_N forms, reserved names)
+    let pools = Pools {
+        ordinary: ["a", "b", "c", "x", "y", "foo", "N", "S", "v"].iter().map(|s| s.to_string()).collect(),
+        special: special.clone(),
+    };
+    let n = args.n.unwrap_or(if args.thorough() { 20000 } else { 1200 });
+    for _ in 0..n {
+        let items = random_program(&mut rng, &pools);
+        let prog = show_program(&items);
+        for t in ["h", "m"] {
+            run_case(t, &prog, &mut cx, out);
+        }
+    }
+    out.stat(&format!(
+        "{{\"sweep_cases\":{},\"random_programs\":{},\"special_names\":{},\"hist\":{}}}",
+        swept,
+        n,
+        special.len(),
+        cx.hist.json()
+    ));
 }
